@@ -13,6 +13,29 @@
 #include "utils/norm.hpp"
 
 namespace coloquinte {
+#ifdef COLOQUINTE_VERIF
+namespace verif {
+void (*onDensityLegalizerOp)(const char *kind, const int *args,
+                             int nbArgs) = nullptr;
+namespace {
+void logOp(const char *kind, const std::vector<int> &args = {}) {
+  if (onDensityLegalizerOp != nullptr) {
+    onDensityLegalizerOp(kind, args.data(), (int)args.size());
+  }
+}
+// Announces a call on construction and its return on destruction
+struct OpScope {
+  explicit OpScope(const char *kind, const std::vector<int> &args = {}) {
+    logOp(kind, args);
+  }
+  ~OpScope() { logOp("end"); }
+  OpScope(const OpScope &) = delete;
+  OpScope &operator=(const OpScope &) = delete;
+};
+}  // namespace
+}  // namespace verif
+#endif
+
 DensityLegalizer::Parameters::Parameters() {
   costModel = LegalizationModel::L1;
   nbSteps = 1;
@@ -211,6 +234,9 @@ int DensityLegalizer::findConstrainedSplitPos(
 }
 
 void DensityLegalizer::rebisect(int x1, int y1, int x2, int y2) {
+#ifdef COLOQUINTE_VERIF
+  verif::OpScope verifScope("rebisect", {x1, y1, x2, y2});
+#endif
   if (x1 == x2 && y1 == y2) {
     return;
   }
@@ -232,6 +258,14 @@ void DensityLegalizer::rebisect(int x1, int y1, int x2, int y2) {
 
 void DensityLegalizer::reoptimize(
     const std::vector<std::pair<int, int> > &binCandidates) {
+#ifdef COLOQUINTE_VERIF
+  std::vector<int> verifArgs;
+  for (auto [x, y] : binCandidates) {
+    verifArgs.push_back(x);
+    verifArgs.push_back(y);
+  }
+  verif::OpScope verifScope("reoptimize", verifArgs);
+#endif
   if (binCandidates.size() == 2) {
     auto [x1, y1] = binCandidates[0];
     auto [x2, y2] = binCandidates[1];
@@ -316,17 +350,29 @@ void DensityLegalizer::refine() {
 
   if (doX && doY && params_.squareReoptSize >= 2) {
     refineX();
+#ifdef COLOQUINTE_VERIF
+    verif::logOp("refineX");
+#endif
     refineY();
+#ifdef COLOQUINTE_VERIF
+    verif::logOp("refineY");
+#endif
     improveSquareNeighbours();
     improveSquareNeighbours(false, false);
   } else {
     if (doX) {
       refineX();
+#ifdef COLOQUINTE_VERIF
+      verif::logOp("refineX");
+#endif
       improveXNeighbours();
       improveXNeighbours(false);
     }
     if (doY) {
       refineY();
+#ifdef COLOQUINTE_VERIF
+      verif::logOp("refineY");
+#endif
       improveYNeighbours();
       improveYNeighbours(false);
     }
@@ -405,6 +451,9 @@ void DensityLegalizer::improveUnidimensionalTransport() {
 }
 
 void DensityLegalizer::improveXTransport() {
+#ifdef COLOQUINTE_VERIF
+  verif::OpScope verifScope("improveXTransport");
+#endif
   float factor = 1.0e8 / placementArea().width();
   for (int j = 0; j < nbBinsY(); ++j) {
     std::vector<int> cells;
@@ -439,6 +488,9 @@ void DensityLegalizer::improveXTransport() {
 }
 
 void DensityLegalizer::improveYTransport() {
+#ifdef COLOQUINTE_VERIF
+  verif::OpScope verifScope("improveYTransport");
+#endif
   float factor = 1.0e8 / placementArea().height();
   for (int i = 0; i < nbBinsX(); ++i) {
     std::vector<int> cells;
@@ -565,22 +617,37 @@ void DensityLegalizer::runCoarsening() {
     double distY = placementArea().height() / (double)nbBinsY();
     doX &= distX <= dist;
     doY &= distY <= dist;
+#ifdef COLOQUINTE_VERIF
+    verif::logOp("coarsenChoice", {doX ? 1 : 0, doY ? 1 : 0});
+#endif
     if (!doX && !doY) {
       // Not possible to coarsen
       break;
     }
     if (doX) {
       coarsenX();
+#ifdef COLOQUINTE_VERIF
+      verif::logOp("coarsenX");
+#endif
     }
     if (doY) {
       coarsenY();
+#ifdef COLOQUINTE_VERIF
+      verif::logOp("coarsenY");
+#endif
     }
   }
   while (levelX() + 1 < nbLevelX()) {
     coarsenX();
+#ifdef COLOQUINTE_VERIF
+    verif::logOp("coarsenX");
+#endif
   }
   while (levelY() + 1 < nbLevelY()) {
     coarsenY();
+#ifdef COLOQUINTE_VERIF
+    verif::logOp("coarsenY");
+#endif
   }
 }
 
